@@ -92,6 +92,73 @@ func strictWalk(v reflect.Value, depth int) string {
 	return "value of type " + t.String()
 }
 
+// plainJSON rebuilds a result from plain Go values (float64, string, bool,
+// nil, []interface{}, map[string]interface{}), a function value becoming "".
+func plainJSON(v reflect.Value, depth int) (interface{}, bool) {
+	if depth > 100 {
+		return nil, false
+	}
+	if !v.IsValid() {
+		return nil, true
+	}
+	t := v.Type()
+	if _, ok := t.MethodByName("Call"); ok {
+		if _, ok2 := t.MethodByName("ParamCount"); ok2 {
+			return "", true
+		}
+	}
+	switch v.Kind() {
+	case reflect.Interface:
+		if v.IsNil() {
+			return nil, true
+		}
+		return plainJSON(v.Elem(), depth+1)
+	case reflect.Ptr:
+		if v.IsNil() {
+			return nil, true
+		}
+		return nil, false
+	case reflect.Bool:
+		return v.Bool(), true
+	case reflect.String:
+		return v.String(), true
+	case reflect.Float32, reflect.Float64:
+		return v.Float(), true
+	case reflect.Int, reflect.Int8, reflect.Int16, reflect.Int32, reflect.Int64:
+		return float64(v.Int()), true
+	case reflect.Uint, reflect.Uint8, reflect.Uint16, reflect.Uint32, reflect.Uint64:
+		return float64(v.Uint()), true
+	case reflect.Slice, reflect.Array:
+		if v.Kind() == reflect.Slice && t.Elem().Kind() == reflect.Uint8 {
+			return nil, false // []byte has its own encoding
+		}
+		out := make([]interface{}, v.Len())
+		for i := range out {
+			x, ok := plainJSON(v.Index(i), depth+1)
+			if !ok {
+				return nil, false
+			}
+			out[i] = x
+		}
+		return out, true
+	case reflect.Map:
+		if t.Key().Kind() != reflect.String {
+			return nil, false
+		}
+		out := map[string]interface{}{}
+		it := v.MapRange()
+		for it.Next() {
+			x, ok := plainJSON(it.Value(), depth+1)
+			if !ok {
+				return nil, false
+			}
+			out[it.Key().String()] = x
+		}
+		return out, true
+	}
+	return nil, false
+}
+
 type c10Case struct {
 	Text  string `json:"text"`
 	Input string `json:"input"`
@@ -177,8 +244,18 @@ func c10Run(c c10Case) (string, c10Info) {
 			return "Eval returned a nil error with a result that is not JSON-representable: " + m, info
 		}
 		// (b) it can be marshalled
-		if _, merr := json.Marshal(res); merr != nil {
+		enc, merr := json.Marshal(res)
+		if merr != nil {
 			return "json.Marshal of Eval's result fails: " + merr.Error(), info
+		}
+		// (b') the encoding is the JSON value the result stands for, function
+		// values standing for empty strings
+		if want, ok := plainJSON(reflect.ValueOf(res), 0); ok {
+			wenc, _ := json.Marshal(want)
+			var a, b interface{}
+			if json.Unmarshal(enc, &a) != nil || json.Unmarshal(wenc, &b) != nil || !reflect.DeepEqual(a, b) {
+				return fmt.Sprintf("Eval's result marshals to %s; with function values standing for empty strings it denotes %s", enc, wenc), info
+			}
 		}
 		k := reflect.ValueOf(res).Kind()
 		info.container = k == reflect.Slice || k == reflect.Map
